@@ -196,7 +196,7 @@ Step(P, m) ==
          One(LET n0 == in.a
                  spread == in.b = 1
                  callee0 == Peek(m, n0)
-             IN IF callee0.k \notin {"func", "builtin"} THEN (IF callee0.k = "hostfn" THEN Excl(m, "host-function") ELSE Fail(m, "not_callable"))
+             IN IF callee0.k \notin {"func", "builtin"} THEN (IF callee0.k \in {"hostfn", "userfunc"} THEN Excl(m, "host-function") ELSE Fail(m, "not_callable"))
                 ELSE IF spread /\ Top(m).k # "array" THEN Fail(Pop(m, 1), "not_an_array")
                 ELSE LET m1 == IF spread THEN [m EXCEPT !.st = SubSeq(@, 1, Len(@) - 1) \o ArrElems(m.h, Top(m))] ELSE m
                          n == IF spread THEN n0 - 1 + Top(m).len ELSE n0
